@@ -205,6 +205,11 @@ def c01_family(tier):
         progs.append(shape_prog(s, True))
     progs.append(shape_prog(SHAPES[0], True, tag='pr', prio='k'))
     progs.append(shape_prog(SHAPES[3], True, tag='pr', prio='N - i + j'))
+    # wide prioritised program: more simultaneously ready tasks than a scheduler's bounded local buffer holds
+    # (4 per core for lfq/pbq/ltq), with ascending priorities so that later pushes eject buffered tasks
+    # (added after a seeded change in hbbuffer.c push_all_by_priority was missed by the N <= 3 programs)
+    progs.append(shape_prog(SHAPES[0], True, tag='prw', prio='k', variants=NV(13)))
+    progs.append(shape_prog(SHAPES[0], True, tag='prwd', prio='N - k', variants=NV(13)))
     progs.append(shape_prog(SHAPES[3], True, tag='cnt', props={'count_deps': '1'}))
     for fx, fy in itertools.product(XFORMS, YFORMS):
         for cx, cy in (('first', 'odd'), ('odd', 'notlast')):
@@ -217,7 +222,7 @@ def c01_family(tier):
     progs, refused = valid(progs)
     if tier == 'quick':
         want = ['sp_tri2z', 'sp_triEz', 'sp_emptyz', 'sp_derpz', 'sp_lidxz', 'sp_nest3', 'sp_swapz', 'sp_inlz', 'sp_negz', 'sp_midz',
-                'su_tmtf_ctlo', 'su_btmo_ttmn', 'su_newf_tmto', 'chain', 'fanout']
+                'su_tmtf_ctlo', 'su_btmo_ttmn', 'su_newf_tmto', 'chain', 'fanout', 'prw_linz']
         progs = [p for p in progs if p.name in want]
         missing = set(want) - set(p.name for p in progs)
         assert not missing or os.environ.get('VERIF_PTG_ONLY'), missing
